@@ -105,13 +105,17 @@ func VerifH_C11_RLE_BitPacking() {
 
 //verif:harness prop=C11 tier=quick,thorough reach=ok paths=100000
 // Bit packing (Writer/Reader bit streams) of index lists is an exact inverse pair.
-// bound: N <= 2 values (thorough: 3), each < 2^10 (bit widths 1..10)
+// bound: quick N <= 2 values < 64 (bit widths 1..6); thorough N <= 3 values < 1024
 func VerifH_C11_BitPacking() {
-	n := 1 + zzverif.Choice("n", 2)
+	maxN, lim := 2, uint32(64)
+	if zzverif.Thorough() {
+		maxN, lim = 3, 1024
+	}
+	n := 1 + zzverif.Choice("n", maxN)
 	small := make([]uint32, n)
 	for i := range small {
 		small[i] = zzverif.Uint32("p")
-		zzverif.Assume(small[i] < 1024)
+		zzverif.Assume(small[i] < lim)
 	}
 	packed := encodeBitPacking(small)
 	unpacked, err := decodeBitPacking(nil, packed)
